@@ -178,9 +178,12 @@ def setup_process():
         import resource
 
         soft, hard = resource.getrlimit(resource.RLIMIT_AS)
-        lim = 6 * 1024 ** 3
-        if soft == resource.RLIM_INFINITY or soft > lim:
-            resource.setrlimit(resource.RLIMIT_AS, (lim, hard))
+        # the main process holds the state table of the world it coordinates (about 20 kB per state for the chaos worlds): it gets a
+        # larger budget than the workers, which only run transitions of the code under test
+        gb = int(os.environ.get("XMC_MAIN_MEM_GB", "28")) if mp.current_process().name == "MainProcess" else 6
+        lim = gb * 1024 ** 3
+        if soft == resource.RLIM_INFINITY or soft != lim:
+            resource.setrlimit(resource.RLIMIT_AS, (lim if hard == resource.RLIM_INFINITY else min(lim, hard), hard))
     except Exception:  # noqa: BLE001
         pass
 
